@@ -650,6 +650,14 @@ def generate(ctx):
                                  col_kinds=['str', 'int', 'auto', 'hier2', 'negint'])
             names = rng.sample(OPS, 14)
             ctx.tally('workload', 'general')
+            if 'object' in spec.dtypes and rng.random() < 0.25:
+                # object columns holding tuples: a cell that NumPy would read as a sequence wherever an array is built from cells
+                for j, dt in enumerate(spec.dtypes):
+                    if dt == 'object':
+                        for i in range(spec.shape[0]):
+                            if rng.random() < 0.5:
+                                spec.cells[i][j] = rng.choice([(1, 2), ('a',), (3, 4), ()])
+                ctx.tally('workload', 'tuple_cells')
         ops = []
         for name in names:
             a = CATALOGUE[name][0](spec, rng)
@@ -759,6 +767,7 @@ def _loose(a, b):
 def _klass(name, a, spec, expected, got):
     k = {'operation': name, 'dtype_kinds': sorted({np.dtype(d).kind for d in spec.dtypes})}
     k['value_equal'] = _value_equal(expected, got)
+    k['tuple_cells'] = any(isinstance(v, tuple) for row in spec.cells for v in row)
     if name == 'bloc':
         k['same_mapping'] = _same_mapping(expected, got)
     fields = _fields_differing(expected, got)
